@@ -379,6 +379,8 @@ class RecQueue(queue.Queue):
         self.waits.append((block, timeout))
         if block and timeout is None:
             raise Hang("Queue.get() without timeout on a queue the silent peer never fills")
+        if len(self.waits) > 3:
+            raise Hang("the wait is restarted again and again although the peer stays silent")
         raise queue.Empty
 
 
@@ -435,15 +437,17 @@ class ReadySock:
     functions=["acse:ACSE.negotiate_release", "acse:ACSE._negotiate_as_requestor", "dimse:DIMSEServiceProvider.get_msg",
                "association:Association.run_reactor", "association:Association.kill", "association:Association._abort_blocking"],
     bounds="which wait (release / association request / DIMSE get_msg(block=True) / acceptor waiting for the A-ASSOCIATE-RQ); "
-           "configured timeout any int 1..1e6 or None; the peer never answers",
+           "configured timeout any int 1..1e6 or None; the peer never answers - for the DIMSE wait also: the peer stopped "
+           "after the first fragment of a message (a partly received message exists)",
     stubs=["dul replaced by a recording stand-in whose queue never fills (Queue.get with timeout raises Empty, without timeout = Hang)",
            "Association thread not started; time.sleep of pynetdicom.association replaced by a no-op"],
     outside="that Queue.get honours its timeout (CPython); wall-clock margins",
 )
-def silent_peer_waits(which: int, has_timeout: bool, timeout: int) -> bool:
+def silent_peer_waits(which: int, has_timeout: bool, timeout: int, partial: bool) -> bool:
     """
     pre: 0 <= which <= 3
     pre: 1 <= timeout <= 10**6
+    pre: which == 2 or not partial
     post: _ == True
     """
     to = timeout if has_timeout else None
@@ -470,6 +474,11 @@ def silent_peer_waits(which: int, has_timeout: bool, timeout: int) -> bool:
                 assoc.is_established = which in (0, 2)
             if which == 2:
                 assoc.dimse.msg_queue = RecQueue()
+                if partial:
+                    # the peer sent the first (not last) fragment of a message and then went silent: a message is
+                    # "being received" for ever
+                    from pynetdicom.dimse_messages import C_ECHO_RSP
+                    assoc.dimse.message = C_ECHO_RSP()
         assoc._acse_timeout = to
         assoc._dimse_timeout = to
         try:
